@@ -40,6 +40,12 @@ def parseKind : Kind → List Char → Parsed
   | .value, t => ofPResult (parseValuePath t)
   | .target _, t => ofTResult (parseTargetPath t)
 
+/-- every index of the path is an `isize` value. -/
+def pathInRange (p : Path) : Bool :=
+  p.all fun s => match s with
+    | .index i => inIsize i
+    | .field _ => true
+
 def expected : Kind → Path → Parsed
   | .value, p => .ok none p
   | .target pfx, p => .ok (some pfx) p
